@@ -478,3 +478,79 @@ Proof.
   intros H. unfold clean_line, strip_comment. rewrite index_byte_app, index_byte_none by assumption.
   rewrite firstn_app, firstn_all, Nat.sub_diag. cbn. now rewrite app_nil_r.
 Qed.
+
+(* ------------------------------------------------------------------ stored entries are lower case *)
+Definition not_upper (c : N) : Prop := ~ (65 <= c <= 90)%N.
+
+Lemma lower_not_upper c : not_upper (lower c).
+Proof. unfold not_upper, lower. destruct ((65 <=? c)%N && (c <=? 90)%N) eqn:E; lia. Qed.
+
+Lemma to_lower_go_S f c tl : to_lower_go (S f) (c :: tl) =
+  if (c =? 0)%N then c :: tl else if (63 <? c)%N then c :: tl
+  else if length tl <? N.to_nat c then c :: tl
+  else c :: map lower (firstn (N.to_nat c) tl) ++ to_lower_go f (skipn (N.to_nat c) tl).
+Proof. reflexivity. Qed.
+
+Lemma scan_go_cons_inv f c tl ls : scan_go f (c :: tl) = Ok ls ->
+  (c =? 0)%N = false /\ (63 <? c)%N = false /\ (length tl <? N.to_nat c) = false /\
+  exists f' ls', f = S f' /\ scan_go f' (skipn (N.to_nat c) tl) = Ok ls' /\ ls = firstn (N.to_nat c) tl :: ls'.
+Proof.
+  destruct f as [|f']; [cbn; discriminate|]. rewrite scan_go_S.
+  destruct (c =? 0)%N; [discriminate|]. destruct (63 <? c)%N; [discriminate|].
+  destruct (length tl <? N.to_nat c); [discriminate|].
+  destruct (scan_go f' (skipn (N.to_nat c) tl)) as [ls'| | |] eqn:E; cbn; try discriminate.
+  intros H. inversion H. repeat split; auto. exists f', ls'. auto.
+Qed.
+
+Lemma scan_lower_go : forall f1 rest f2 ls, length rest <= f1 ->
+  scan_go f2 (to_lower_go f1 rest) = Ok ls -> Forall (Forall not_upper) ls.
+Proof.
+  induction f1 as [|f IH]; intros rest f2 ls Hlen H.
+  - destruct rest; [|cbn in Hlen; lia]. destruct f2; cbn in H; inversion H; constructor.
+  - destruct rest as [|c tl]; [destruct f2; cbn in H; inversion H; constructor|].
+    rewrite to_lower_go_S in H. cbn [length] in Hlen.
+    destruct (c =? 0)%N eqn:E0.
+    { apply scan_go_cons_inv in H. destruct H as [H _]. congruence. }
+    destruct (63 <? c)%N eqn:E63.
+    { apply scan_go_cons_inv in H. destruct H as [_ [H _]]. congruence. }
+    destruct (length tl <? N.to_nat c) eqn:EL.
+    { apply scan_go_cons_inv in H. destruct H as [_ [_ [H _]]]. congruence. }
+    apply scan_go_cons_inv in H. destruct H as (_ & _ & _ & f' & ls' & -> & Hs & ->).
+    apply Nat.ltb_ge in EL.
+    assert (Hl : length (map lower (firstn (N.to_nat c) tl)) = N.to_nat c).
+    { rewrite map_length, firstn_length. lia. }
+    rewrite firstn_app, Hl, Nat.sub_diag in *. cbn [firstn] in *. rewrite app_nil_r in *.
+    rewrite firstn_all2 in * by lia.
+    rewrite skipn_app, Hl, Nat.sub_diag in Hs. cbn [skipn] in Hs.
+    rewrite skipn_all2 in Hs by lia. cbn [app] in Hs.
+    constructor.
+    + apply Forall_forall. intros x Hx. apply in_map_iff in Hx. destruct Hx as [y [<- _]]. apply lower_not_upper.
+    + eapply IH; [|exact Hs]. rewrite skipn_length. lia.
+Qed.
+
+(* every name that MixMatcher.Add stores has no upper-case letter in any label *)
+Theorem scan_lower n ls : scan (to_lower_name n) = Ok ls -> Forall (Forall not_upper) ls.
+Proof.
+  unfold to_lower_name. destruct (254 <? length n) eqn:E.
+  - unfold scan. rewrite E. discriminate.
+  - unfold scan. destruct (254 <? length (to_lower_go (length n) n)); [discriminate|].
+    apply scan_lower_go. lia.
+Qed.
+
+Theorem parse_rule_lower re_valid r e : parse_rule re_valid r = Ok e ->
+  match e with
+  | EDomain ls => Forall (Forall not_upper) ls
+  | EFull d => forall ls, scan d = Ok ls -> Forall (Forall not_upper) ls
+  | ERegexp _ => True
+  end.
+Proof.
+  unfold parse_rule. destruct (match index_byte 58 r with Some i => _ | None => _ end) as [typ exp].
+  destruct (is_nil typ || list_eqb typ s_domain).
+  - destruct (parse_readable exp) as [d| | |]; cbn; try discriminate. intros H. inversion H.
+    unfold labels_of. destruct (scan (to_lower_name d)) eqn:E; try constructor. eapply scan_lower; eauto.
+  - destruct (list_eqb typ s_full).
+    + destruct (parse_readable exp) as [d| | |]; cbn; try discriminate. intros H. inversion H.
+      intros ls. apply scan_lower.
+    + destruct (list_eqb typ s_regexp); [|discriminate].
+      destruct (re_valid exp); [|discriminate]. intros H. inversion H. exact I.
+Qed.
